@@ -20,7 +20,11 @@ from .core import Scratch, ToolError, Verdict, log, tlc
 ALPH = ["a", "b", "A", "B", "_", "0", "1", "2", "9"]
 WITNESS = ["a01", "a1", "a001", "a10", "a9", "a01b01", "a1b1", "a01b1", "a1b01", "a_1", "a_01",
            "Aa", "aA", "__a", "a0_", "a00", "a2", "a10b", "a9b", "ab", "aB", "A_b", "a_b", "a__b",
-           "b1", "b01", "B1", "a99999999999999999999", "a99999999999999999998", "a1_2", "a1_02"]
+           "b1", "b01", "B1", "a99999999999999999999", "a99999999999999999998", "a1_2", "a1_02",
+           # digit runs around and beyond what a machine word holds
+           "a18446744073709551614", "a18446744073709551615", "a18446744073709551616",
+           "a10000000000000000000000", "a20000000000000000000000", "a09999999999999999999999",
+           "a10000000000000000000000b", "a4294967295", "a4294967296"]
 USE_POOL = ["a", "b", "A", "B", "a1", "a01", "a10", "a2", "_a", "a_b", "ab", "aB", "Ab", "AB", "A_B",
             "r#a", "r#fn", "a::b", "a::B", "a::*", "a::{self}", "a::{b, c}", "a::b::c", "crate::a",
             "self::a", "super::a", "::a", "a as z", "a as y", "a::b as x", "core", "std", "alloc",
